@@ -567,7 +567,7 @@ SELFTEST = [
      "edits": [{"file": "src/half_connection/send_rate.rs", "old": "(v_s * 1000.0).max(0.0).round() as u64", "new": "(v_s * 1000.0).min(0.0).round() as u64"}],
      "expect": ["C14.g"]},
     {"name": "expiry does not re-arm the no-feedback timer",
-     "edits": [{"file": "src/half_connection/send_rate.rs", "old": "        let rto_s = self.update_rto(self.rtt_s.unwrap_or(0.0), self.send_rate);\n\n        self.nofeedback_exp_ms = Some(now_ms + s_to_ms(rto_s));\n", "new": "        let _rto_s = self.update_rto(self.rtt_s.unwrap_or(0.0), self.send_rate);\n\n"}],
+     "edits": [{"file": "src/half_connection/send_rate.rs", "old": "        let rto_s = self.update_rto(self.rtt_s.unwrap_or(0.0), self.send_rate);\n\n        self.nofeedback_exp_ms = Some(now_ms.saturating_add(s_to_ms(rto_s)));\n", "new": "        let _rto_s = self.update_rto(self.rtt_s.unwrap_or(0.0), self.send_rate);\n\n"}],
      "expect": ["C14.g"]},
     {"name": "benign: reorder commutative operands of the equation",
      "edits": [{"file": "src/half_connection/send_rate.rs", "old": "(p*2.0/3.0).sqrt() + 12.0*(p*3.0/8.0).sqrt()*p*(1.0 + 32.0*p*p)", "new": "12.0*p*(3.0*p/8.0).sqrt()*(32.0*p*p + 1.0) + (2.0*p/3.0).sqrt()"}],
